@@ -210,6 +210,8 @@ func runC13(c *Ctx) {
 	runC13NotifyClone(c)
 	runC13Hooks(c)
 	runC13Alias(c)
+	runC13Round4(c)
+	runC13TextMarshal(c)
 }
 
 // ---------- R3 validation walk ----------
